@@ -975,9 +975,9 @@ class Interp(ExprMixin, LoopMixin, CallMixin):
                 self.event('with-enter', st, cm=cm)
                 try:
                     self._for_generator(node, cm)
-                except (Raised, Returned, BreakSig, ContinueSig):
-                    for m in reversed(managers):
-                        self._with_exit(m, st, exceptional=True)
+                except (Raised, Returned, BreakSig, ContinueSig) as sig:
+                    if self._with_unwind(managers, st, sig):
+                        return
                     raise
                 for m in reversed(managers):
                     self._with_exit(m, st, exceptional=False)
@@ -995,9 +995,9 @@ class Interp(ExprMixin, LoopMixin, CallMixin):
         from .signals import ConsumerSignal
         try:
             self.exec_block(st.body)
-        except (Raised, Returned, BreakSig, ContinueSig, ConsumerSignal):
-            for cm in reversed(managers):
-                self._with_exit(cm, st, exceptional=True)
+        except (Raised, Returned, BreakSig, ContinueSig, ConsumerSignal) as sig:
+            if self._with_unwind(managers, st, sig):
+                return
             raise
         else:
             for cm in reversed(managers):
@@ -1006,15 +1006,34 @@ class Interp(ExprMixin, LoopMixin, CallMixin):
     def st__RestOfWith(self, st):
         return self.st_With(st.with_node, first=st.first)
 
-    def _with_exit(self, cm, st, exceptional):
+    def _with_unwind(self, managers, st, sig):
+        """The body was left by `sig`: every manager's __exit__ runs, innermost first.  An exception in flight is handed to
+        __exit__(type, value, traceback); a true result swallows it - the managers further out then see a normal exit and the
+        statement completes (returns True)."""
+        exc = sig.exc if isinstance(sig, Raised) else None
+        for cm in reversed(managers):
+            if self._with_exit(cm, st, exceptional=exc is not None, exc=exc):
+                exc = None
+        return isinstance(sig, Raised) and exc is None
+
+    def _with_exit(self, cm, st, exceptional, exc=None):
         self.event('with-exit', st, cm=cm, exceptional=exceptional)
         if isinstance(cm, ObjV):
             r = cm.cls.lookup('__exit__')
             if r and r[0] == 'method':
                 none = ConstV(None)
-                self.call_function(r[1], [none, none, none], {}, self_obj=cm, node=st)
+                if exc is None:
+                    self.call_function(r[1], [none, none, none], {}, self_obj=cm, node=st)
+                    return False
+                tv = ClassV(exc.cls) if hasattr(exc.cls, 'qualname') else ExtV(getattr(exc.cls, '__name__', 'Exception'))
+                res = self.call_function(r[1], [tv, exc, UnkV('traceback')], {}, self_obj=cm, node=st)
+                res = self.resolve(res)
+                if isinstance(res, ConstV):
+                    return bool(res.value)
+                return bool(self.truth(res, st))
         elif isinstance(cm, FileV):
             cm.closed = True
+        return False
 
     # ---------------------------------------------------------------- misc statements
     def st_Break(self, st):
